@@ -48,6 +48,8 @@ var decos = []struct {
 	{"blank-lines", "\n\n", "raw"},
 	{"tab-spaces", "\t  ", "raw"},
 	{"newline", "\n", "raw"},
+	{"carriage-return", "\r", "raw"},
+	{"crlf", "\r\n", "raw"},
 }
 
 // executable programs (simulator half); literals need no escapes
@@ -194,6 +196,8 @@ func gen09(tier string, emit func(Case)) {
 			}
 			return "gap:" + toks[i].Kind + ":" + prev + "|" + tokShape(toks[i].Text), false
 		}
+		// the whole file with CRLF line ends
+		emit(Case{Base: base, Variant: strings.ReplaceAll(base, "\n", "\r\n"), Exec: p.exec, Must: true, Where: "every-line-end", Deco: "crlf", Prog: p.kind})
 		for i := range toks {
 			w, must := where(i)
 			for _, d := range decos {
